@@ -32,6 +32,7 @@ var subC03 = harness.NewSub("c03-marshal-vs-reference", func(c valCase, d harnes
 func c03NonTrivial(p m.Packet) bool { return valueNonTrivial(p) }
 
 func TestC03(t *testing.T) {
+	defer harness.Uncaught(t)
 	harness.RapidCheck(t, harness.Scale(6000, 40000), 3, func(rt *rapid.T) {
 		c := valCase{P: genValue(rt)}
 		harness.Record(subC03.Name, c, c03NonTrivial(c.P), classesOf(c.P)...)
